@@ -50,6 +50,10 @@ type Opts struct {
 	// (`common := make([]Option, 0, 8)`, `strict := append(common, MaxExpressions(n))`);
 	// the library has no business writing there.
 	SpareCap bool `json:"spare_cap,omitempty"`
+	// FilePrepared (with UseFile): the file was written once before the clients
+	// started (several goroutines parse the same file with their own options);
+	// the call itself only reads it.
+	FilePrepared bool `json:"file_prepared,omitempty"`
 	// NoGlobalOpt: the call is made without any GlobalStore option (most programs
 	// never use it); the simulation context then travels with the running
 	// client instead of in the global store.
@@ -75,6 +79,7 @@ type Parser struct {
 	Flags       []string
 	Has         map[string]bool     // option constructors present in this template variant
 	Prebuild    func(keys []string) // builds the shared Option values (driver goroutine, before clients start)
+	PrepFile    func(name string, input []byte) // writes the file that ParseFile calls with FilePrepared read
 	Parse       func(filename string, input []byte, o *Opts, ctx *kernel.Ctx) (val any, err error, esc any, cnt uint64)
 	Inspect     func(err error) (bool, []ErrElem)
 	G           func() any
@@ -257,6 +262,14 @@ func (p *Parser) Solo(c *Call, pool simsync.PoolConfig, stepCap int64) *CallResu
 	return p.Exec(c, cl)
 }
 
+// After runs one call alone in the state the previous call of this process
+// left behind: pools (and whatever the package keeps) are not reset.
+func (p *Parser) After(c *Call, stepCap int64) *CallResult {
+	simmap.Configure(simmap.Asc, 0, false)
+	cl := simrt.Solo(stepCap)
+	return p.Exec(c, cl)
+}
+
 // Summary renders the parts of a result that must be equal between a run and
 // its twin.
 func (r *CallResult) Summary() string {
@@ -399,4 +412,22 @@ func (o *Opts) SharedKeys() []string {
 		k = append(k, "entry:"+o.Entrypoint)
 	}
 	return k
+}
+
+// prepareFiles writes the files that calls with FilePrepared read, once,
+// before anybody parses them.
+func prepareFiles(p *Parser, clients [][]Call) {
+	if p.PrepFile == nil {
+		return
+	}
+	done := map[string]bool{}
+	for i := range clients {
+		for j := range clients[i] {
+			c := &clients[i][j]
+			if c.Opts.UseFile && c.Opts.FilePrepared && !done[c.Opts.FileName()] {
+				done[c.Opts.FileName()] = true
+				p.PrepFile(c.Opts.FileName(), c.Input)
+			}
+		}
+	}
 }
